@@ -19,6 +19,10 @@ def c06(case, f):
         b = sqlfeat.bare(t)
         if b in feat["lateral_view_aliases"]:
             return "KF-11"
+        # KF-39: the columns of a scalar sub-query in a select item come back from a nested analysis as (column, qualifier) and the qualifier
+        # is looked up in the *outer* query's alias map: an alias, or the bare name of a schema-qualified table, falls through to Table(qualifier)
+        if (b in feat["select_subquery_aliases"] or b in feat["select_subquery_tables"]) and t.startswith("<default>."):
+            return "KF-39"
     return None
 
 
@@ -94,8 +98,10 @@ def c11(case, det):
             if fld in a:
                 da = [x for x in a[fld] if x not in b[fld]]
                 db = [x for x in b[fld] if x not in a[fld]]
-                # one side holds the unexpanded star paths
-                if any(c.endswith(".*") for p in da for c in p) != any(c.endswith(".*") for p in db for c in p):
+                # one side holds the unexpanded star of a derived table (owner printed without schema: 'dq1.*')
+                def subq_star(paths):
+                    return {c for p in paths for c in p if c.endswith(".*") and c.count(".") == 1}
+                if subq_star(da) != subq_star(db):
                     ok = True
         if ok:
             return "KF-38"
